@@ -30,9 +30,11 @@ FAMILY = "dbs"
 PENDING_FINDINGS = os.path.join(VERIF, "pending_repo_patches", "C18_findings.json")
 NCONN = 3
 
-# One fixed script: ARGV = n1 a1..an1 n2 b1..bn2 ..; performs the calls in order and returns the last reply.
-WRAPPER = ("local i = 1 local r = nil while i <= #ARGV do local n = tonumber(ARGV[i]) local c = {} "
-           "for j = 1, n do c[j] = ARGV[i + j] end r = redis.call(unpack(c)) i = i + n + 1 end return r")
+# One fixed script: ARGV = n1 f1 a1..an1 n2 f2 b1..bn2 ..; performs the calls in order — fi = 'c': redis.call, 'p': redis.pcall — and
+# returns the last reply.
+WRAPPER = ("local i = 1 local r = nil while i <= #ARGV do local n = tonumber(ARGV[i]) local f = ARGV[i + 1] local c = {} "
+           "for j = 1, n do c[j] = ARGV[i + 1 + j] end "
+           "if f == 'p' then r = redis.pcall(unpack(c)) else r = redis.call(unpack(c)) end i = i + n + 2 end return r")
 
 # redis.call goes through a second implementation of every command (commands/executor.rs): whether it agrees with
 # the client-facing handlers is C12's property.  Through scripts this check uses the commands on which both agree
@@ -140,8 +142,9 @@ def op_plain(c, args):
     return {"c": c, "k": "plain", "args": [hx(a) for a in args]}
 
 
-def op_script(c, sha, cmds):
-    return {"c": c, "k": "script", "sha": int(sha), "cmds": [[hx(a) for a in cmd] for cmd in cmds]}
+def op_script(c, sha, cmds, forms=None):
+    """forms: one letter per call, 'c' = redis.call, 'p' = redis.pcall (default: all call)"""
+    return {"c": c, "k": "script", "sha": int(sha), "cmds": [[hx(a) for a in cmd] for cmd in cmds], "forms": forms or "c" * len(cmds)}
 
 
 def op_pipe(c, reqs):
@@ -154,7 +157,9 @@ def op_text(op):
     if op["k"] == "plain":
         return "c%d: %s" % (op["c"], " ".join(repr(t(a)) if not t(a).isalnum() else t(a) for a in op["args"]))
     if op["k"] == "script":
-        return "c%d: %s [%s]" % (op["c"], "EVALSHA" if op["sha"] else "EVAL", " ; ".join(" ".join(t(a) for a in cmd) for cmd in op["cmds"]))
+        fm = op.get("forms") or "c" * len(op["cmds"])
+        return "c%d: %s [%s]" % (op["c"], "EVALSHA" if op["sha"] else "EVAL",
+                                 " ; ".join(("pcall " if f == "p" else "") + " ".join(t(a) for a in cmd) for f, cmd in zip(fm, op["cmds"])))
     if op["k"] == "pipe":
         return "c%d: pipelined { %s }" % (op["c"], " | ".join(" ".join(t(a) for a in r) for r in op["reqs"]))
     if op["k"] == "selcheck":
@@ -329,8 +334,10 @@ class Sess:
             cli.send(*[unhx(a) for a in op["args"]])
         else:
             flat = []
-            for cmd in op["cmds"]:
+            fm = op.get("forms") or "c" * len(op["cmds"])
+            for f, cmd in zip(fm, op["cmds"]):
                 flat.append(str(len(cmd)).encode())
+                flat.append(f.encode())
                 flat += [unhx(a) for a in cmd]
             if op["sha"]:
                 cli.send("EVALSHA", self.sha, "0", *flat)
@@ -340,7 +347,8 @@ class Sess:
     def model_line(self, c, op, obs):
         if op["k"] == "plain":
             return "req %d %d %s plain %s" % (c, self.now(), obs, " ".join(op["args"]))
-        return "req %d %d _ script %d %s" % (c, self.now(), op["sha"], "/".join(",".join(cmd) for cmd in op["cmds"]))
+        return "req %d %d _ script %d %s %s" % (c, self.now(), op["sha"], op.get("forms") or "c" * len(op["cmds"]),
+                                                "/".join(",".join(cmd) for cmd in op["cmds"]))
 
     def names_for(self, c, op):
         """what the reply has to be canonicalised as"""
@@ -782,6 +790,31 @@ class HistGen:
             out.append(cmd)
         return out
 
+    def forms_for(self, cmds):
+        """the call form is a dimension of every script step: redis.call or redis.pcall; sometimes a pcall that fails is put in
+        front of another command (the script must go on, on the same database)"""
+        r = self.r
+        cmds = list(cmds)
+        k = r.below(10)
+        if k < 4:
+            forms = "c" * len(cmds)
+        elif k < 6:
+            forms = "p" * len(cmds)
+        else:
+            forms = "".join(r.choice("cp") for _ in cmds)
+        if r.chance(1, 5):
+            fail = r.choice([[b"GET"], [b"HGET", b"k1"], [b"LPUSH", b"k1", b"x"], [b"SELECT", b"3"], [b"LLEN"], [b"SADD", b"l", b"m"]])
+            i = r.below(len(cmds))           # never last: the script's reply stays the reply of a generated command
+            cmds.insert(i, fail)
+            forms = forms[:i] + "p" + forms[i:]
+            self.s.rep.count("script.pcall-of-failing-command-then-more")
+        self.s.rep.count("script.forms.%s" % ("call-only" if "p" not in forms else ("pcall-only" if "c" not in forms else "mixed")))
+        return cmds, forms
+
+    def script_op(self, c, sha=None, cmds=None):
+        cmds, forms = self.forms_for(cmds if cmds is not None else self.script_cmds())
+        return op_script(c, self.r.chance(1, 2) if sha is None else sha, cmds, forms)
+
     def unit(self):
         """the next operations (a list of closures over the session)"""
         r, s = self.r, self.s
@@ -798,7 +831,7 @@ class HistGen:
             if k < 35:
                 return [("req", op_plain(c, self.select_cmd()))]
             if k < 52:
-                return [("req", op_script(c, r.chance(1, 2), self.script_cmds()))]
+                return [("req", self.script_op(c))]
             if k < 54:
                 return [("req", op_plain(c, [b"MULTI"]))]
             if k < 59:
@@ -812,7 +845,7 @@ class HistGen:
         if k < 28:
             return [("req", op_plain(c, [b"MULTI"]))]
         if k < 46:
-            return [("req", op_script(c, r.chance(1, 2), self.script_cmds()))]
+            return [("req", self.script_op(c))]
         if k < 51:
             return [("pipe", op_pipe(c, [[b"SELECT", self.select_arg(True)], self.ge.command(), [b"SELECT", self.select_arg()], self.ge.command()]))]
         if k < 60 and self.profile != "noblock" and len(free) >= 2:
@@ -958,10 +991,18 @@ class Runner:
         if step.get("name") == "EXEC" and step.get("in_multi") and not step.get("died"):
             it, st_ = parse_tree(step["impl"]), parse_tree(step["spec"])
             if it[0] == "a" and st_[0] == "a" and len(it[1]) == len(st_[1]) == len(step.get("queue_ops", [])):
+                refused = None
                 for o, x, y in zip(step["queue_ops"], it[1], st_[1]):
-                    if o["k"] == "plain" and o["args"] and upname(o["args"][0]) == "SELECT" and (x == ("e",)) != (y == ("e",)):
-                        out.update({"isolation": True, "why": "the queued %s was %s by EXEC, the Spec %s it"
-                                    % (op_text(o), "refused" if x == ("e",) else "accepted", "refuses" if y == ("e",) else "accepts")})
+                    if o["k"] == "plain" and o["args"] and upname(o["args"][0]) == "SELECT":
+                        if (x == ("e",)) != (y == ("e",)):
+                            out.update({"isolation": True, "why": "the queued %s was %s by EXEC, the Spec %s it"
+                                        % (op_text(o), "refused" if x == ("e",) else "accepted", "refuses" if y == ("e",) else "accepts")})
+                            return out
+                        if y == ("e",):
+                            refused = o
+                    elif refused is not None and o["k"] == "plain" and not same_reply(upname(o["args"][0]) if o["args"] else "", x, y):
+                        out.update({"isolation": True, "why": "a refused SELECT keeps the current selection, but after the refused queued %s the queued %s answered %s "
+                                    "where the Spec (database %d still selected) answers %s" % (op_text(refused), op_text(o), show_tree(x), step["pre_sel"], show_tree(y))})
                         return out
         # (a) reads: the same command on every database (post-state of the model; meaningful for commands that do not write)
         if op["k"] == "plain" and not step["in_multi"] and step.get("name") not in ("EXEC", "MULTI", "DISCARD", "SELECT", "BLPOP", "BRPOP"):
@@ -1020,13 +1061,20 @@ class Runner:
         path = r.choice(["direct", "direct", "exec", "exec", "script", "pipe"])
         self.rep.count("selprobe.%s.%s" % (path, "valid" if arg.strip(b"+").isdigit() and arg.strip() == arg and arg != b"" and int(arg) < 16 and not arg.startswith(b"-") else "invalid"))
         sel = [r.choice([b"SELECT", b"select", b"Select"]), arg]
+        if r.chance(1, 4):
+            # refused for its arity, with a perfectly valid-looking first argument (another database than the selected one)
+            d = str(self.bdb(r, avoid=s.sel[c])).encode()
+            sel = [sel[0], d, r.choice([b"junk", str(self.bdb(r)).encode(), b""])]
+            arg = d + b"+extra"
+            self.rep.count("selprobe.%s.wrong-arity-valid-first-argument" % path)
         marker = [b"SET", b"selprobe", arg or b"empty"]
         if path == "direct":
             seq = [("req", op_plain(c, sel))]
         elif path == "exec":
-            seq = [("req", op_plain(c, x)) for x in ([b"MULTI"], sel, marker, [b"EXEC"])]
+            seq = [("req", op_plain(c, x)) for x in ([b"MULTI"], sel, marker, [b"APPEND", b"selprobe", b"!"], [b"EXEC"])] + [("dump", None)]
         elif path == "script":
-            seq = [("req", op_script(c, r.chance(1, 2), [[b"SELECT", arg]]))]          # refused inside scripts, selection kept
+            seq = [("req", op_script(c, r.chance(1, 2), [[b"SELECT", arg], marker], r.choice(["pc", "pp", "pc"])) if r.chance(1, 2)
+                    else op_script(c, r.chance(1, 2), [[b"SELECT", arg]], r.choice("cp")))]   # refused inside scripts, selection kept
         else:
             seq = [("pipe", op_pipe(c, [sel, [b"GET", b"selprobe"]]))]
         seq += [("req", op_plain(c, marker)), ("req", op_plain(c, [b"GET", b"selprobe"]))]
@@ -1034,13 +1082,21 @@ class Runner:
             if kind == "req":
                 if not self.judge(s.request(c, x)):
                     return False
+            elif kind == "dump":
+                if not self.judge(s.dumpcheck()):
+                    return False
             else:
                 ok = True
                 for st in s.pipeline(c, x):
                     ok = self.judge(st) and ok
                 if not ok:
                     return False
-        return self.judge(s.selcheck())
+        if not self.judge(s.selcheck()):
+            return False
+        # where did the data commands that followed the SELECT land? all 16 databases, right away
+        if path == "exec" or r.chance(1, 3):
+            return self.judge(s.dumpcheck())
+        return True
 
     # ---- FLUSHDB / FLUSHALL on every path with keys present in several other databases; all 16 dumped afterwards
     def flush_scenario(self, r, c, gen):
@@ -1066,12 +1122,13 @@ class Runner:
         elif path == "exec":
             seq = [op_plain(c, [b"MULTI"]), op_plain(c, [b"SET", b"k1", b"pre"]), op_plain(c, cmd), op_plain(c, [b"EXEC"])]
         elif path in ("eval", "evalsha"):
-            seq = [op_script(c, path == "evalsha", r.choice([[cmd], [[b"SET", b"k1", b"pre"], cmd], [cmd, [b"DBSIZE"]]]))]
+            seq = [gen.script_op(c, path == "evalsha", r.choice([[cmd], [[b"SET", b"k1", b"pre"], cmd], [cmd, [b"DBSIZE"]]]))]
         else:
-            seq = [op_plain(c, [b"MULTI"]), op_script(c, r.chance(1, 2), [[x.upper() for x in cmd]]), op_plain(c, [b"EXEC"])]
+            seq = [op_plain(c, [b"MULTI"]), gen.script_op(c, None, [[x.upper() for x in cmd]]), op_plain(c, [b"EXEC"])]
         for x in seq:
             if x["k"] == "script":
                 x["cmds"] = [[hx(a.upper()) if i == 0 else hx(a) for i, a in enumerate([unhx(h) for h in cmdl])] for cmdl in x["cmds"]]
+                self.rep.count("flush.via-%s" % ("pcall" if any(f == "p" and upname(cmdl[0]).startswith("FLUSH") for f, cmdl in zip(x["forms"], x["cmds"])) else "call"))
             if not self.judge(s.request(c, x)):
                 return False
         return self.judge(s.dumpcheck())
@@ -1112,7 +1169,7 @@ class Runner:
                     return False
             return True
         self.rep.count("push.script")
-        return self.judge(s.request(b, op_script(b, r.chance(1, 2), [push])))
+        return self.judge(s.request(b, op_script(b, r.chance(1, 2), [push], r.choice("ccp"))))
 
     def blocking_scenario(self, r, a, gen):
         """connection a goes through 1-3 blocking calls, changing its selection in between and reusing key names: single and
@@ -1377,6 +1434,13 @@ def corpus():
                                    P(1, T("SET", "k1", "a")), P(2, T("SET", "k1", "b")), P(3, T("MULTI")), S(3, 0, [T("FLUSHALL")]), P(3, T("EXEC")), {"k": "dumpcheck"},
                                    P(1, T("SET", "k1", "a")), P(2, T("SET", "k1", "b")), P(3, T("MULTI")), P(3, T("FLUSHDB")), P(3, T("EXEC")), {"k": "dumpcheck"},
                                    P(3, T("MULTI")), P(3, T("FLUSHALL")), P(3, T("EXEC")), {"k": "dumpcheck"}],
+        "clean-pcall": [P(2, T("SET", "zero", "1")), P(1, T("SELECT", 9)), P(1, T("SET", "nine", "1")),
+                        S(1, 0, [T("SET", "k", "v"), T("DBSIZE")], "pp"), S(1, 1, [T("GET"), T("APPEND", "k", "w"), T("GET", "k")], "ppc"), {"k": "dumpcheck"},
+                        S(1, 0, [T("LPUSH", "k", "x"), T("FLUSHDB")], "pp"), {"k": "dumpcheck"}, P(1, T("SET", "nine", "2")),
+                        P(1, T("MULTI")), S(1, 1, [T("SELECT", 3), T("SET", "q", "1")], "pp"), S(1, 0, [T("FLUSHALL")], "p"), P(1, T("EXEC")), {"k": "dumpcheck"}],
+        "clean-queued-refused-select": [P(1, T("SELECT", 5)), P(1, T("MULTI")), P(1, T("SELECT", 3, "junk")), P(1, T("SET", "k", "a")), P(1, T("SELECT", 3, 4)),
+                                        P(1, T("APPEND", "k", "b")), P(1, T("SELECT", 99)), P(1, T("APPEND", "k", "c")), P(1, T("SELECT", "7x")),
+                                        P(1, T("APPEND", "k", "d")), P(1, T("EXEC")), {"k": "dumpcheck"}, {"k": "selcheck"}, P(1, T("GET", "k"))],
         "clean-exec": [P(1, T("SELECT", 4)), P(1, T("MULTI")), P(1, T("RPUSH", "l", "a")), P(2, T("SELECT", 4)), P(2, T("RPUSH", "l", "z")),
                        P(1, T("LRANGE", "l", 0, -1)), P(1, T("EXEC")), P(3, T("LRANGE", "l", 0, -1))],
     }
